@@ -107,7 +107,8 @@ FixStep ==
 IdxStep ==
   /\ E.e = "Idx"
   /\ Chk("C18_IndexAgrees", E.ok)
-  /\ Chk("B_ModelStaleAgrees", stale = ~E.ok)
+  \* the model's own prediction (remap discipline of FixPipeline): an index the model expects to be fresh must be fresh
+  /\ Chk("C18_RemapDiscipline", stale \/ E.ok)
   /\ stale' = ~E.ok
   /\ UNCHANGED <<toks, fixPhase, skip, lastPS>>
 
@@ -169,8 +170,13 @@ Other ==
   /\ E.e \in {"SetIndent", "CheckBegin", "CheckEnd", "Round", "Rejected"}
   /\ Same
 
+\* C09: texts[k] = (interned) text of the file after the k-th --fix of the same file under the same configuration
+Texts == Traces[tid].texts
 End ==
   /\ E.e = "End"
+  /\ Chk("C09_SecondFixChangesNothing", Len(Texts) < 2 \/ Texts[2] = Texts[1])
+  /\ Chk("C09_NoOscillation", \A i, j \in 1..Len(Texts) : (i < j /\ Texts[i] = Texts[j]) => \A k \in i..j : Texts[k] = Texts[i])
+  /\ Chk("C09_EventuallyConstant", Len(Texts) < 3 \/ Texts[Len(Texts)] = Texts[Len(Texts) - 1])
   /\ PrintT(<<"DONE", Traces[tid].tid, l>>)
   /\ Same
 
